@@ -82,6 +82,7 @@ fn main() {
             }
         }
     });
+    crate::explore::install_panic_hook();
     // a panic anywhere in the harness is a machinery failure (exit 2), never a verdict
     let r = std::panic::catch_unwind(std::panic::AssertUnwindSafe(|| props::dispatch(&args)));
     match r {
